@@ -87,6 +87,18 @@ def guards(I, kind):
     return [a for a in I.assumed if a[4] == 'raise-guard' and kind in a[2]]
 
 
+def refuses_below(I, query_candidates, table_candidates, label, qlabel):
+    """is there a raise-guard whose precondition is "no request is below the table minimum" (compared as normal forms; the request and the minimum may be
+    expressed in any of the candidate forms: clamped or not, as physical values or as numbers in a unit)"""
+    from ..fitmodel import guard_requires
+    cands = []
+    for qv_ in query_candidates:
+        for tab in table_candidates:
+            mn = mk_fn('min', B(label, tab))
+            cands.append(alg.b_not(mk_fn('any', B(qlabel, lt(qv_, mn)))))
+    return guard_requires(I, cands)
+
+
 def roundtrip_findings(ctx, h, fi, inst):
     """(UNIT-2) the clamp bound must reach the bounds-checked look-up without a unit round trip: table maximum -> request's unit (on assignment into the
     request) -> table's unit (.to before the look-up) does not return the same floating-point number, so a request beyond the table can land one ulp above
@@ -136,13 +148,15 @@ def check_cf_interpolate(ctx):
         compare(ctx, 'CFG-7', 'ConvolvedFluxes.interpolate apertures of the result', where_, out.attrs.get('_apertures'), qc, (D,), vocab=VOCAB, fns=FNS, detail_ok='the (clamped) request')
         compare(ctx, 'CFG-7', 'ConvolvedFluxes.interpolate model names', where_, out.attrs.get('_model_names'), sym('names', M), (M,), vocab=VOCAB, fns=FNS, detail_ok='copied unchanged')
         compare(ctx, 'CFG-7', 'ConvolvedFluxes.interpolate central wavelength', where_, out.attrs.get('_wavelength'), sym('cw'), (), vocab=VOCAB, fns=FNS, detail_ok='copied unchanged')
-    ctx.expect(bool(guards(I, '<')) and any('min()' in g[2] for g in guards(I, '<')), 'CFG-7', 'ConvolvedFluxes.interpolate refuses radii below the table', where_, 'raises when any request < table minimum',
-               'no raise guards radii below the smallest aperture', 'too-small')
+    okg, seen = refuses_below(I, [q, qc], [cap], A, D)
+    ctx.expect(okg, 'CFG-7', 'ConvolvedFluxes.interpolate refuses radii below the table', where_, 'raises when any request < table minimum',
+               'no raise guards radii below the smallest aperture (guards: %s)' % seen, 'too-small')
     unit_findings(ctx, I, fi, 'ConvolvedFluxes.interpolate comparisons')
     roundtrip_findings(ctx, h, fi, 'ConvolvedFluxes.interpolate clamp bound and look-up in one unit')
     for args, kwargs, r, node in h.i1d:
-        ctx.expect(not kwargs, 'AXIS', 'ConvolvedFluxes.interpolate interp1d options', loc(fi, node.lineno), 'scipy defaults: linear, exact at knots, error outside',
-                   'non-default options %s change the interpolant or silence out-of-range requests' % sorted(kwargs), 'interp1d-options')
+        opts_ = {k_: v_ for k_, v_ in kwargs.items() if k_ != 'axis'}
+        ctx.expect(not opts_, 'AXIS', 'ConvolvedFluxes.interpolate interp1d options', loc(fi, node.lineno), 'scipy defaults: linear, exact at knots, error outside',
+                   'non-default options %s change the interpolant or silence out-of-range requests' % sorted(opts_), 'interp1d-options')
     # single aperture: interpreted with the table holding one aperture; every request (inside, above or below) gets the one tabulated value
     hs = H(single=True)
     Is = Interp(repo, hs)
@@ -181,15 +195,97 @@ def run(ctx):
                 detail_ok='linear interpolant at min(request, maximum) with abscissa and query both in AU')
         unit_findings(ctx, I, fs, 'SED.interpolate comparisons, request given as %s' % tag)
         roundtrip_findings(ctx, h, fs, 'SED.interpolate clamp bound and look-up in one unit (%s)' % tag)
-        ctx.expect(any('min()' in g[2] for g in guards(I, '<')), 'CFG-7', 'SED.interpolate refuses radii below the table (%s)' % tag, loc(fs), 'raises when any request < table minimum',
-                   'no raise guards radii below the smallest aperture', 'too-small')
+        okg, seen = refuses_below(I, [qn, clamp_ref(qn, mxn), qn * au, clamp_ref(qn, mxn) * au], [capn, cap], A, D)
+        ctx.expect(okg, 'CFG-7', 'SED.interpolate refuses radii below the table (%s)' % tag, loc(fs), 'raises when any request < table minimum',
+                   'no raise guards radii below the smallest aperture (guards: %s)' % seen, 'too-small')
         for args, kwargs, r, node in h.i1d:
-            ctx.expect(not kwargs, 'AXIS', 'SED.interpolate interp1d options (%s)' % tag, loc(fs, node.lineno), 'scipy defaults', 'non-default options %s' % sorted(kwargs), 'interp1d-options')
+            opts_ = {k_: v_ for k_, v_ in kwargs.items() if k_ != 'axis'}        # the axis is part of the interpolant decided above; kind / bounds / fill change it
+            ctx.expect(not opts_, 'AXIS', 'SED.interpolate interp1d options (%s)' % tag, loc(fs, node.lineno), 'scipy defaults', 'non-default options %s' % sorted(opts_), 'interp1d-options')
 
     check_variable(ctx)
 
 
+def variable_reference(k):
+    """interpolate_variable as the property states it, for a clamp fraction k: flux[:, n] interpolated linearly (over apertures) at the aperture the log-log
+    aperture(wavelength) curve through the filters gives at wavelength n, the curve held constant beyond the end filters; requests above the table maximum
+    taken as k times the maximum"""
+    from ..interp import _linear_fn
+    mJy, au = sym('unit:mJy'), sym('unit:au')
+    cap = sym('cap', A)
+    fw, qv = sym('fw', 'w'), sym('q', 'w')
+    capn = cap / au
+    mxn = mk_fn('max', B(A, capn))
+    order = alg.array_fn('argsort', 'w', fw)
+    g = lambda p_: mk_fn('at', B('w', p_), P(order))
+    qc_ = qv + lt(mxn, qv) * (k * mxn - qv)
+    xs_, ys_ = alg.log10(g(fw)), alg.log10(g(qc_))
+    lw = alg.log10(sym('wav', N) / sym('unit:micron'))
+    val = lambda p_: mk_fn('value', P(p_))
+    curve = _linear_fn('lininterp', val(lw), 'w', val(xs_), ys_, [C('bounds_error=False'), C('fill_value=Marker(numpy.nan)')])
+    first = lambda p_: mk_fn('at', B('w', p_), P(Poly()))
+    last = lambda p_: mk_fn('at', B('w', p_), P(Poly.const(-1)))
+    ap1 = mk_fn('exp10', P(curve))
+    ap2 = ap1 + lt(lw, first(xs_)) * (mk_fn('exp10', P(first(ys_))) - ap1)
+    ap3 = ap2 + lt(last(xs_), lw) * (mk_fn('exp10', P(last(ys_))) - ap2)
+    ref = _linear_fn('lininterp', ap3, A, capn, sym('flux', A, N) / mJy, [])
+    return ref, alg.Facts().assume_le(first(xs_), last(xs_)), (qv, qc_, capn, cap, au)
+
+
 def check_variable(ctx):
+    """The result of interpolate_variable is compared as a whole with the statement (for the clamp fraction the code uses, which must lie in [0.99, 1]).
+    When that comparison is decided it covers the pairing of wavelengths and apertures, the interpolator's axis, the clamp and the diagonal; the
+    piecewise rules (which look at how the code is written) run only when it is not, and may then only say undecided."""
+    from ..roundtrip import SuspectCtx
+    repo = ctx.repo
+    mJy = sym('unit:mJy')
+    scls = repo.cls('sed.sed', 'SED')
+    fv = ctx.fn(repo.func('sed.sed', 'SED.interpolate_variable'))
+    h = H()
+    I = Interp(repo, h)
+    obj = Obj(scls, {'_apertures': symarr('cap', (A,), unit=sym('unit:cm')), '_flux': symarr('flux', (A, N), unit=mJy), '_error': symarr('err', (A, N), unit=mJy),
+                     '_wav': symarr('wav', (N,), unit=sym('unit:micron')), '_nu': None})
+    outv = I.call(fv, [symarr('fw', ('w',), unit=num(1)), symarr('q', ('w',), unit=num(1))], selfv=obj)
+    where_ = loc(fv)
+    bad_axes = [f for f in I.findings if f.kind == 'label-clash']
+    decided = False
+    if isinstance(outv, Arr) and not bad_axes:
+        ks = sorted({c for c in alg.constants_in(outv.poly) if Fraction(99, 100) <= c < 1} | {Fraction(1), Fraction(999, 1000)}, reverse=True)
+        hit = None
+        for k in ks:
+            ref, facts, parts = variable_reference(k)
+            if tuple(outv.dims) == (N,) and outv.mask is None and alg.is_zero(facts.simplify(outv.poly - ref))[0]:
+                hit = (k, parts)
+                break
+        if hit is not None:
+            k, (qv, qc_, capn, cap, au) = hit
+            decided = True
+            ctx.ok('CFG-7', 'interpolate_variable result', where_, 'flux[:, n] interpolated linearly at the aperture of the log-log aperture(wavelength) curve at wavelength n (curve held constant beyond the '
+                   'end filters): the diagonal pairing; requests above the table maximum taken as %s x maximum' % k)
+            ctx.ok('AXIS', 'interpolate_variable flux interpolator', where_, 'over the aperture axis of the flux table (follows from the result)')
+            ctx.ok('PERM-10', 'aperture(wavelength) interpolator', where_, 'each filter wavelength paired with that filter\'s own aperture, on an increasing abscissa (follows from the result)')
+            ctx.ok('CFG-7', 'interpolate_variable clamp', where_, 'radii above the table maximum are set to k*max with k = %s' % float(k))
+            ctx.extra['clamp_constant_interpolate_variable'] = float(k)
+            okg, seen = refuses_below(I, [qv, qc_, qv * au, qc_ * au], [capn, cap], A, 'w')
+            ctx.expect(okg, 'CFG-7', 'interpolate_variable refuses radii below the table', where_, 'raises when any request < table minimum',
+                       'no raise guards radii below the smallest aperture (guards: %s)' % seen, 'too-small')
+            unit_findings(ctx, I, fv, 'interpolate_variable comparisons')
+        else:
+            ref, facts, parts = variable_reference(Fraction(999, 1000))
+            compare(ctx, 'CFG-7', 'interpolate_variable result', where_, outv, ref, (N,), facts, vocab=VOCAB | {'fw', 'wav'}, fns=FNS | {'value', 'exp10'})
+            decided = any(o.rule == 'CFG-7' and o.instance == 'interpolate_variable result' and o.status == 'VIOLATION' for o in ctx.obs)
+    if not decided:
+        if bad_axes:
+            ctx.violation('AXIS', 'interpolate_variable flux interpolator', loc(fv, bad_axes[0].line), bad_axes[0].msg, 'axis')
+            return
+        if not isinstance(outv, Arr):
+            ctx.undecided('CFG-7', 'interpolate_variable result', where_, 'value not modelled: %r' % (outv,))
+        try:
+            variable_details(SuspectCtx(ctx, 'the result was not decided as a whole and the piecewise rule, which knows one spelling only, reports'))
+        except AnalysisError as e:
+            ctx.undecided('CFG-7', 'interpolate_variable (piecewise rules)', where_, 'structure not recognised: %s' % e)
+
+
+def variable_details(ctx, pre=None):
     repo = ctx.repo
     U, mJy, au = sym('unit:U'), sym('unit:mJy'), sym('unit:au')
     q, cap = sym('q', D), sym('cap', A)
@@ -288,8 +384,10 @@ def check_variable(ctx):
     compare(ctx, 'CFG-7', 'interpolate_variable result', loc(fv), outv, ref_v, (N,), sorted_fact, vocab=VOCAB | {'fw', 'wav'}, fns=FNS | {'value', 'exp10'},
             findings=[f for f in I.findings if f.kind == 'label-clash'],
             detail_ok='flux[:, n] interpolated linearly at the aperture of the log-log aperture(wavelength) curve at wavelength n (curve held constant beyond the end filters): the diagonal pairing')
-    ctx.expect(any('min()' in g[2] for g in guards(I, '<')), 'CFG-7', 'interpolate_variable refuses radii below the table', loc(fv), 'raises when any request < table minimum',
-               'no raise guards radii below the smallest aperture', 'too-small')
+    qcl = qv + lt(mxn, qv) * ((Fraction(repr(kfound[0])) if kfound else Fraction(1)) * mxn - qv)
+    okg, seen = refuses_below(I, [qv, qcl, qv * au, qcl * au], [capn, cap], A, 'w')
+    ctx.expect(okg, 'CFG-7', 'interpolate_variable refuses radii below the table', loc(fv), 'raises when any request < table minimum',
+               'no raise guards radii below the smallest aperture (guards: %s)' % seen, 'too-small')
     unit_findings(ctx, I, fv, 'interpolate_variable comparisons')
 
 
